@@ -28,7 +28,7 @@ pub enum Op {
     /// n tool-spec adds in a row through `node` (crosses the node's 100-id cache ranges)
     ToolMany { node: u8, n: u8 },
     /// one batch_update of n fresh tool specs through `node` (direct range)
-    ToolBatch { node: u8, n: u8 },
+    ToolBatch { node: u8, n: u16 },
     /// all three nodes draw concurrently: n sequential adds through each, in parallel
     Burst { n: u8 },
     /// MCP server add through `node`
@@ -59,7 +59,7 @@ fn op_strategy() -> impl Strategy<Value = Op> {
     prop_oneof![
         8 => (0u8..3).prop_map(|node| Op::Tool { node }),
         3 => (0u8..3, 30u8..125).prop_map(|(node, n)| Op::ToolMany { node, n }),
-        3 => (0u8..3, 1u8..30).prop_map(|(node, n)| Op::ToolBatch { node, n }),
+        3 => (0u8..3, prop_oneof![4 => 1u16..30, 1 => 98u16..104, 1 => 101u16..160]).prop_map(|(node, n)| Op::ToolBatch { node, n }),
         3 => (5u8..70).prop_map(|n| Op::Burst { n }),
         3 => (0u8..3).prop_map(|node| Op::Server { node }),
         6 => (0u8..3, 0u8..3).prop_map(|(key, node)| Op::Publish { key, node }),
@@ -279,6 +279,9 @@ fn run_case_inner(case: &ClusterCase, c: &mut Cluster) -> CaseReport {
                 }
             }
             Op::ToolBatch { node, n } => {
+                if *n > 100 {
+                    labels.insert("direct_range_longer_than_cache_step".into());
+                }
                 let nd = *node as usize % 3;
                 if down == Some(nd) {
                     continue;
@@ -490,7 +493,13 @@ fn run_case_inner(case: &ClusterCase, c: &mut Cluster) -> CaseReport {
         for d in draws.iter().filter(|d| d.acked && d.stream != "server") {
             for nm in &d.names {
                 if !tools.contains_key(nm) && !lost.contains(nm) {
-                    return viol(&labels, format!("tool spec {} ({}) was acknowledged but node {} does not serve it - its id cannot be observed", nm, d.what, view + 1));
+                    // An acknowledged add that a node does not serve is a lost write (the subject of C06 / C07), not an id
+                    // issued twice or backwards: C19's statement does not cover it, so it is labelled, not judged (false
+                    // alarm 23 in DESIGN 8.9). The id stays observable through the other nodes' views.
+                    labels.insert("observed_acknowledged_add_missing_on_a_node".into());
+                    if std::env::var("RNV_C19_STRICT_ACK").is_ok() {
+                        return viol(&labels, format!("tool spec {} ({}) was acknowledged but node {} does not serve it - its id cannot be observed; node logs: 1: {} 2: {} 3: {}", nm, d.what, view + 1, c.log_tail(0), c.log_tail(1), c.log_tail(2)));
+                    }
                 }
             }
         }
